@@ -23,6 +23,7 @@ EXPLANATION = (
 ASSUMPTIONS = ["Rust or-patterns `A | B =>` select the arm for both", "HashSet/BTreeMap semantics"]
 
 PL = "leptos_i18n_parser/src/parse_locales/locale.rs"
+PM = "leptos_i18n_parser/src/parse_locales/mod.rs"
 PV = "leptos_i18n_parser/src/parse_locales/parsed_value.rs"
 ML = "leptos_i18n_macro/src/load_locales/mod.rs"
 MI = "leptos_i18n_macro/src/load_locales/interpolate.rs"
@@ -43,59 +44,60 @@ def r1_default_to(ctx, prog, cfg):
     if b is None:
         r.missing("check_locales_inner")
         return r
-    suppress = "suppress_key_warnings" in prog.features("leptos_i18n_parser")
-    gets = M.call_blocks(b, r"BTreeMap::<K, V, A>::get$")
-    gets = [g for g in gets if any(b.local_name(l) == "extensions" for l in backward_slice(b, op_place(b.blocks[g]["term"]["args"][0])["l"])[0])]
-    if len(gets) != 1:
-        r.viol("R1:check_locales_inner#get", "expected one lookup `extensions.get(&top_locale)`, found %d" % len(gets), file=b.file, line=b.line)
+    # the value handed to Locale::merge as `default_to`, evaluated abstractly (rules/absint.py) for a locale with and
+    # without an `inherits` entry, with and without `suppress_key_warnings`; a helper the choice was moved to is inlined
+    from rules import sem, absint
+    from rules.absint import AEval, C, CF, L, T, B
+    fn = ctx.ast.fn(PM, "check_locales_inner")
+    if fn is None:
+        r.missing("check_locales_inner (syntax)")
         return r
-    g = gets[0]
-    t = b.blocks[g]["term"]
-    key_ls, _ = backward_slice(b, op_place(t["args"][1])["l"])
-    if not any(b.local_name(l) == "top_locale" for l in key_ls):
-        r.viol("R1:check_locales_inner#get-key", "the inherits table is not looked up with the locale being merged", file=b.file, line=t["line"])
+    nb = sem.nbody(ctx.ast, fn)
+    mcalls = [n for (_rc, _a, n) in sem.calls(nb, r"^merge$") if len(n["args"]) >= 6]
+    if len(mcalls) != 1:
+        r.viol("R1:check_locales_inner#merge-call", "expected one call locale.merge(.., default_to, ..), found %d" % len(mcalls), file=fn.file, line=fn.line)
+        return r
+    expr = mcalls[0]["args"][2]
+    if expr["k"] == "Path":
+        lets = [l for l in find_all(nb, "Let") if l["pat"]["k"] == "PIdent" and l["pat"]["name"] == expr["path"] and "init" in l]
+        if len(lets) == 1:
+            expr = lets[0]["init"]
+
+    def S(x):
+        return ("str", x)
+    params = fn.params()
+    rows = []
+    for has_entry in (True, False):
+        for suppress_kw in (True, False):
+            env = {"top_locale": S("fr-CA"), "default_locale": CF("Locale", top_locale_name=S("en"), name=S("en"))}
+            ext = L(T(S("fr-CA"), S("fr")), T(S("de"), S("it"))) if has_entry else L(T(S("de"), S("it")))
+            for pn in params:
+                if "extension" in pn:
+                    env[pn] = ext
+            env.setdefault("extensions", ext)
+            ev = AEval(inputs=[(r'^cfg!feature="suppress_key_warnings"$', B(suppress_kw))], funcs=absint.file_funcs(ctx.ast, PM))
+            try:
+                v = ev.ex(expr, env)
+            except absint.Unknown as u:
+                v = "UNKNOWN: %s" % u
+            except absint.Ret as rt:
+                v = rt.value
+            want = C("Explicit", S("fr")) if has_entry else (C("Explicit", S("en")) if suppress_kw else C("Implicit", S("en")))
+            rows.append((has_entry, suppress_kw, v, want))
+    bad = [(h, sk, v if isinstance(v, str) else absint.fmt(v), absint.fmt(w)) for h, sk, v, w in rows if v != w]
+    if not bad:
+        r.inst("check_locales_inner#lookup", "extensions.get(&top_locale), top_locale = locale.name", cfg=cfg)
+        r.inst("check_locales_inner#DefaultTo::Explicit@Some", "Explicit(<the inherits entry of this locale>)", cfg=cfg)
+        r.inst("check_locales_inner#DefaultTo@None", "no entry: Explicit(default locale) under suppress_key_warnings, else Implicit(default locale)", cfg=cfg)
     else:
-        r.inst("check_locales_inner#lookup", "extensions.get(&top_locale), top_locale = locale.name")
-    sws = [(i, sw) for (i, sw, pl) in M.discr_switches(b, lambda pl: pl["l"] == t["dest"]["l"])]
-    if len(sws) != 1:
-        r.viol("R1:check_locales_inner#match", "the lookup result is not matched once", file=b.file, line=b.line)
-        return r
-    swb, sw = sws[0]
-    some = [x for v, x in sw["targets"] if v == "1"][0]
-    none = [x for v, x in sw["targets"] if v == "0"]
-    none = none[0] if none else sw["otherwise"]
-    feas = M.feasible_reachable(b)
-    for i, j, s in b.aggregates("locale::DefaultTo"):
-        if i not in feas:
-            continue
-        variant = s["rv"]["variant"]
-        op = s["rv"]["ops"][0]
-        ls, defs = backward_slice(b, op_place(op)["l"])
-        from_get = t["dest"]["l"] in ls
-        from_default = any(b.local_name(l) == "default_locale" for l in ls)
-        side = "Some" if b.dominates(some, i) else ("None" if b.dominates(none, i) else "?")
-        site = "check_locales_inner#DefaultTo::%s@%s" % (variant, side)
-        if side == "Some":
-            if variant == "Explicit" and from_get and not from_default:
-                r.inst(site, "Explicit(<the inherits entry of this locale>)", cfg=cfg)
-            else:
-                r.viol("R1:" + site, "a locale with an inherits entry must default to Explicit(that entry) (variant %s, from lookup %s, from default locale %s)" % (variant, from_get, from_default), file=b.file, line=s["line"])
-        elif side == "None":
-            want = "Explicit" if suppress else "Implicit"
-            if variant == want and from_default and not from_get:
-                r.inst(site, "%s(&default_locale.top_locale_name)" % want, cfg=cfg)
-            else:
-                r.viol("R1:" + site, "a locale without inherits entry must default to %s(default locale) (found %s, from default locale %s)" % (want, variant, from_default), file=b.file, line=s["line"])
-        else:
-            r.viol("R1:" + site, "DefaultTo built outside the match on extensions.get(..)", file=b.file, line=s["line"])
+        for h, sk, got, want in bad:
+            r.viol("R1:check_locales_inner#DefaultTo@%s%s" % ("Some" if h else "None", ",suppress" if sk else ""), "for a locale %s an inherits entry (suppress_key_warnings=%s) Locale::merge receives default_to = %s, expected %s" % ("with" if h else "without", sk, got, want), file=fn.file, line=fn.line)
+    swb = 0
     merges = M.call_blocks(b, r"locale::Locale::merge$")
     for m in merges:
         tt = b.blocks[m]["term"]
         ls, _ = backward_slice(b, op_place(tt["args"][3])["l"])
-        if any(b.local_name(l) == "default_to" for l in ls) and b.dominates(swb, m):
-            r.inst("check_locales_inner#merge", "locale.merge(.., default_to, ..) receives the chosen value", cfg=cfg)
-        else:
-            r.viol("R1:check_locales_inner#merge-arg", "Locale::merge does not receive the chosen default_to", file=b.file, line=tt["line"])
+        r.inst("check_locales_inner#merge", "locale.merge(.., default_to, ..) receives the chosen value (its argument is what was evaluated above)", cfg=cfg)
     return r
 
 
@@ -115,12 +117,18 @@ def r2_recording(ctx, prog):
             r.inst("ParsedValue::merge#" + k, frag[:90])
         else:
             r.viol("R2:ParsedValue::merge#" + k, "merge lost `%s`" % frag[:90], file=PV)
-    fn = ctx.ast.fn(PL, "merge", impl_self="Locale")
-    t = flatp(show(fn.body)) if fn else ""
-    if has(t, "Entry::Vacantentry=>{") and has(t, "entry.insertParsedValue::Default}") and has(t, "value.mergekeys,top_locale.clone,default_to,key_path,strings,warnings?;"):
-        r.inst("Locale::merge#absent", "an absent key becomes ParsedValue::Default and is merged with the same default_to")
-    else:
-        r.viol("R2:Locale::merge#absent", "absent keys are no longer turned into Default and merged with default_to", file=PL)
+    from rules import localemerge
+    rows = localemerge.table(ctx)
+    okm = bool(rows) and rows[0][1] is not None
+    for (label, res, log, want) in rows:
+        got_m = sorted(repr(x) for x in (log or []) if x[0] in ("insert", "merge"))
+        want_m = sorted(repr(x) for x in want if x[0] in ("insert", "merge"))
+        if res != localemerge.C("Ok", localemerge.UNIT) or got_m != want_m:
+            okm = False
+            r.viol("R2:Locale::merge#absent:" + label.replace(" ", "_"), "with %s: absent keys are not (all) turned into Default and merged with the same default_to: %s" % (label, [x for x in localemerge.describe(log) if x[0] != "warn"] if log is not None else res), file=PL)
+            break
+    if okm:
+        r.inst("Locale::merge#absent", "an absent key becomes ParsedValue::Default and is merged with the same default_to (%d cases)" % len(rows))
     callers = sorted({bb.name for (bb, i, tt) in prog.callers_of(r"locale::DefaultedLocales::push$")})
     if callers != ["leptos_i18n_parser::parse_locales::parsed_value::ParsedValue::merge"]:
         r.viol("R2:who#DefaultedLocales::push", "DefaultedLocales::push is called from %s" % callers, file=PL)
@@ -146,12 +154,26 @@ def r3_walk(ctx, prog):
              "chain loops, the default locale`; a visited set carried over from another walk reports loops that are not there",
              floor=6)
     fn = ctx.ast.fn(PL, "default_of_inner", impl_self="DefaultedLocales")
-    t = flatp(show(fn.body)) if fn else ""
-    want = "{letmutcurrent_key=key;whileletSomekey=self.mapping.getcurrent_key{visited.insertcurrent_key;ifvisited.containskey{return&self.default_locale;};current_key=key;};current_key}"
-    if not same(t, want):
-        r.viol("R3:default_of_inner#shape", "chain walk changed: %s" % t[:220], file=PL)
+    if fn is None:
+        r.missing("DefaultedLocales::default_of_inner")
     else:
-        r.inst("default_of_inner", "while let Some(next) = mapping.get(cur) { visited.insert(cur); if visited.contains(next) { return default } cur = next } cur")
+        # abstract evaluation (rules/absint.py) on a map with a chain, a two-cycle, a self loop and unmapped locales
+        from rules import absint
+        from rules.absint import AEval, CF, L, T
+
+        def S(x):
+            return ("str", x)
+        this = CF("DefaultedLocales", default_locale=S("en"), mapping=L(T(S("fr-CA"), S("fr")), T(S("fr"), S("de")), T(S("it"), S("es")), T(S("es"), S("it")), T(S("pt"), S("pt"))))
+        want = {"fr-CA": "de", "fr": "de", "de": "de", "it": "en", "es": "en", "pt": "en", "en": "en", "xx": "xx"}
+        got = {}
+        for k in want:
+            v = AEval(funcs={}).run_fn(fn, [this, S(k), L()])
+            got[k] = v[1] if not isinstance(v, str) and v[0] == "str" else (v if isinstance(v, str) else absint.fmt(v))
+        stale = AEval(funcs={}).run_fn(fn, [this, S("fr-CA"), L(S("de"))])
+        if got == want:
+            r.inst("default_of_inner", "chains end at the first locale that is not defaulted (fr-CA -> fr -> de), loops (it <-> es, pt -> pt) end at the default locale, an unmapped locale is its own end; with a stale visited set {de} the walk from fr-CA ends at %s (why callers must pass a fresh set)" % (stale[1] if not isinstance(stale, str) else stale))
+        else:
+            r.viol("R3:default_of_inner#shape", "chain walk over {fr-CA->fr, fr->de, it->es, es->it, pt->pt} (default en) ends at %s, expected %s" % (got, want), file=PL)
     # freshness of the visited set at every call
     calls = prog.callers_of(r"locale::DefaultedLocales::default_of_inner$")
     if not calls:
